@@ -257,14 +257,24 @@ def has_neg_td_any(x):
 
 REGION_ID = {'F3': 'F3-neg-timedelta-v1', 'F18': 'F18-v1-fixed-tuple-index', 'F22': 'F22-v1-generic-helper-name',
              'F23': 'F23-v1-literal-guard-key', 'F26': 'F26-v1-seq-in-dict-key', 'F9': 'F9-v1-same-name',
-             'F27': 'F27-v1-none-annotation'}
+             'F27': 'F27-v1-none-annotation', 'F28': 'F28-dump-frozenset-in-dict-key'}
 
 
 def open_region(ctx, reg):
-    return bool(reg) and ctx.is_open_region(REGION_ID[reg])
+    return bool(reg) and reg not in RESOLVED and ctx.is_open_region(REGION_ID[reg])
 
 
 # ---------------------------------------------------------------------------------- case construction
+def frozenset_in_key(m):
+    """some dict key type of the model contains a frozenset (the dumper turns it into a list)"""
+    for c in m['classes']:
+        for f in c['fields']:
+            for s in G.subtypes(f['ty'], m):
+                if s['k'] == 'dict' and any(x['k'] == 'seq' and x['kind'] == 'frozenset' for x in G.subtypes(s['kt'], m)):
+                    return True
+    return False
+
+
 def has_bare_none(t, model):
     return any(s['k'] == 'leaf' and s['l'] == 'nonebare' for s in G.subtypes(t, model))
 
@@ -276,6 +286,9 @@ def model_has_bare_none(m):
 def predicted_clean(t, model):
     """Python-side region prediction used only to decide how fields are PACKED into classes."""
     if has_bare_none(t, model):
+        return False
+    if any(s['k'] == 'dict' and any(x['k'] == 'seq' and x['kind'] == 'frozenset' for x in G.subtypes(s['kt'], model))
+           for s in G.subtypes(t, model)):
         return False
     if not (G.f18_free(t, False, model) and G.keyseq_free(t, False, model)):
         return False
@@ -348,9 +361,9 @@ def build_cases(ctx):
     # depth 3: sample
     triples = list(itertools.product(names, repeat=3))
     r.shuffle(triples)
-    for (c1, c2, c3) in triples[:(140 if quick else 2600)]:
-        l = r.choice(ALL_LEAVES)
-        add('%s(%s(%s(%s)))' % (c3, c2, c1, l), [c1, c2, c3], l)
+    for (c1, c2, c3) in triples[:(140 if quick else 3375)]:
+        for l in ([r.choice(ALL_LEAVES)] if quick else r.sample(ALL_LEAVES, 2)):
+            add('%s(%s(%s(%s)))' % (c3, c2, c1, l), [c1, c2, c3], l)
     if pending:
         flush(pending[:])
         pending.clear()
@@ -372,7 +385,7 @@ def build_cases(ctx):
         if mb.m['instances']:
             continue
         ri = ctx.sub_rng('inst', label, mb.mi)
-        for _ in range(1 if quick else 2):
+        for _ in range(1 if quick else 3):
             mb.m['instances'].append(gen_inst(ri, mb.m['root'], mb.m))
     return cases
 
@@ -447,6 +460,7 @@ def explicit_models(mi, r):
         mb.m['instances'].append(['C', mb.m['classes'][0]['name'],
                                   [['alpha', ['O', 'timedelta', '-1,86399,0']], ['beta_val', ['L', [['O', 'timedelta', '0,5,0']]]]]])
     mk('F3:negative-timedelta', neg_td)
+    mk('F28:frozenset-in-key', lambda mb: mb.cls([('alpha', dct(tup(seq('frozenset', leaf('int')), leaf('str')), leaf('int')))]), json_ok=False)
     mk('F27:none-annotation', lambda mb: mb.cls([('alpha', seq('list', leaf('nonebare')))]))
     mk('F26:seq-in-dict-key', lambda mb: mb.cls([('alpha', dct(seq('tuple', leaf('int')), leaf('int')))]), json_ok=False)
     return out
@@ -550,7 +564,22 @@ def classify(mb, gen, inst_tree):
     return None
 
 
+RESOLVED = set()
+
+
 def run(ctx):
+    # ---- listed findings: replay the witnesses first.  A finding whose witness no longer fails is
+    # RESOLVED: its region is then treated like any other input (a failure there is a violation) and
+    # the faithful-to-the-defect model is not compared inside it.
+    RESOLVED.clear()
+    id_region = {v: k for k, v in REGION_ID.items()}
+    for f in ctx.findings('open'):
+        w = f.get('witness')
+        if w and w.get('kind') in ('instance', 'model'):
+            fails = not replay(ctx, w, quiet=True)
+            ctx.known_finding(f['id'], still_fails=fails)
+            if not fails and f['id'] in id_region:
+                RESOLVED.add(id_region[f['id']])
     cases = build_cases(ctx)
     for _, mb in cases:
         for c in mb.m['classes']:
@@ -598,6 +627,8 @@ def run(ctx):
             continue
         gen = gens.get(ci)
         region = classify(mb, gen, None)
+        py_region = 'F27' if model_has_bare_none(m) else classify_py(mb)
+        tie_ok = model_ok and py_region not in RESOLVED
         # ---- direct predicate 1: loader generation never raises
         if res['gen_err'] and model_has_bare_none(m) and res['gen_err']['err'] == 'TypeError' and open_region(ctx, 'F27'):
             ctx.hist('known_region', 'F27')
@@ -605,7 +636,7 @@ def run(ctx):
         if res['gen_err']:
             ctx.violation('v1 loader generation raised %s for %s: %s' % (res['gen_err']['err'], label, res['gen_err']['msg'][:200]), rp_model)
             continue
-        if model_ok and gen is not None and 'err' in gen:
+        if tie_ok and gen is not None and 'err' in gen:
             ctx.broken_tie('model generator fails where the implementation generates (%s)' % label, gen['err'])
         # ---- direct predicate 2: generated code reads no unbound positional variable (hook H1)
         if not res.get('hook'):
@@ -619,7 +650,7 @@ def run(ctx):
                 else:
                     ctx.violation('generated function %s reads unbound variable(s) %s (%s)' % (fname, s['unbound'], label), rp_model)
         # ---- tie: binding summaries
-        if model_ok and gen is not None and 'err' not in gen and res.get('hook'):
+        if tie_ok and gen is not None and 'err' not in gen and res.get('hook'):
             mf = gen['fns']
             if set(mf) != set(res['fns']):
                 ctx.broken_tie('generated function names differ from the model (%s)' % label,
@@ -638,6 +669,8 @@ def run(ctx):
             rp = {'kind': 'instance', 'label': label, 'model': {**m, 'instances': [tree], 'docs': []}}
             ctx.count(1, key='i:%s|%d|%s' % (label, ii, json.dumps(tree)[:300]), nontrivial=nontrivial)
             reg = classify(mb, gen, tree)
+            if 'dump_err' in ir and frozenset_in_key(m):
+                reg = 'F28'
             bad = inst_failure(ir, m)
             if bad:
                 ctx.hist('instance_outcome', 'fails')
@@ -648,7 +681,7 @@ def run(ctx):
             else:
                 ctx.hist('instance_outcome', 'round-trips')
             # correspondence with the model
-            if model_ok and (ci, ii) in loads and 'load' in ir:
+            if tie_ok and (ci, ii) in loads and 'load' in ir:
                 lo = loads[(ci, ii)]
                 if 'marker' in lo['code']:
                     ctx.broken_tie('model budget / oracle table exhausted (%s): %s' % (label, lo['code']))
@@ -670,11 +703,6 @@ def run(ctx):
                         'impl': {k: v for k, v in (res['inst'][0] if res['inst'] else {}).items() if k in ('eq', 'same', 'json')},
                         'model_gen': {k: gen[k] for k in ('coherent', 'region', 'alias')} if gen and 'err' not in gen else None})
 
-    # ---- listed findings: replay the witnesses
-    for f in ctx.findings('open'):
-        w = f.get('witness')
-        if w and w.get('kind') in ('instance', 'model'):
-            ctx.known_finding(f['id'], still_fails=not replay(ctx, w, quiet=True))
 
 
 def _depth(t):
